@@ -106,6 +106,12 @@ func bodySchema(f string) M {
 	if strings.Contains(f, "r") {
 		props["arr"] = M{"type": "array", "items": M{"type": "object", "properties": M{"r": M{"type": "boolean", "default": true}, "k": M{"type": "integer"}}}}
 	}
+	if strings.Contains(f, "w") {
+		// defaults on properties a request does not carry (readOnly) and on properties only a request
+		// carries (writeOnly): the first is never injected into a request, the second is
+		props["ro"] = M{"type": "string", "readOnly": true, "default": "dro"}
+		props["wo"] = M{"type": "string", "writeOnly": true, "default": "dwo"}
+	}
 	if strings.Contains(f, "a") {
 		s["allOf"] = []any{M{"type": "object", "properties": M{"a": M{"type": "string", "default": "da"}}}}
 	}
@@ -160,6 +166,9 @@ func inject(s M, v any) any {
 			ps := props[name].(M)
 			cur, present := out[name]
 			if !present || cur == nil {
+				if ps["readOnly"] == true {
+					continue // a request does not carry read-only properties: nothing to add
+				}
 				if d, ok := ps["default"]; ok {
 					out[name] = inject(ps, jv.Clone(d))
 				}
@@ -205,6 +214,10 @@ func build(c Case) (*openapi3.T, error) {
 	comps := M{"schemas": jv.Clone(branchComps)}
 	if c.Auth != "none" {
 		op["security"] = []any{M{"key": []any{}}}
+		if strings.Contains(c.Auth, "undeclared") {
+			// an alternative naming a scheme that is not declared comes first
+			op["security"] = []any{M{"ghost": []any{}}, M{"key": []any{}}}
+		}
 		comps["securitySchemes"] = M{"key": M{"type": "apiKey", "name": "X-Key", "in": "header"}}
 	}
 	item := M{"post": op}
@@ -564,7 +577,7 @@ func gen(t *rapid.T) Case {
 	c.HasBody = rapid.IntRange(0, 4).Draw(t, "hasbody") > 0
 	if c.HasBody {
 		feats := ""
-		for _, f := range "pnoarxyd" {
+		for _, f := range "pnoarxydw" {
 			if rapid.IntRange(0, 2).Draw(t, "feat:"+string(f)) == 0 {
 				feats += string(f)
 			}
@@ -613,7 +626,7 @@ func gen(t *rapid.T) Case {
 	}
 	c.CT = rapid.SampledFrom([]string{"", "", "application/json; charset=utf-8", "application/json;charset=UTF-8", "application/json; profile=\"x\""}).Draw(t, "ct")
 	c.Skip = rapid.IntRange(0, 3).Draw(t, "skip") == 0
-	c.Auth = rapid.SampledFrom([]string{"none", "none", "pass", "pass-read", "fail", "fail-read"}).Draw(t, "auth")
+	c.Auth = rapid.SampledFrom([]string{"none", "none", "pass", "pass-read", "fail", "fail-read", "pass-undeclared", "fail-undeclared-read"}).Draw(t, "auth")
 	c.Style = rapid.SampledFrom([]string{"server", "client"}).Draw(t, "style")
 	return c
 }
